@@ -448,14 +448,55 @@ def o_dump_subset_load(ctx, repo):
                           norm(st)[:70],
                           '%s can write %s%s, which is not in the language the loader accepts for !!%s: the dumped value does not '
                           'read back' % (fname, _w(w), extra, short), inp=w)
-    # the guards that keep non-finite floats out of the repr branch
+    # the guards that keep non-finite floats out of the repr branch: for data = nan / +inf / -inf no path reaches repr(data)
+    from .cfg import CFG, own_exprs
     f = R.methods.get('represent_float')
-    t = norm(f.node)
-    if 'data != data' in t and 'data == self.inf_value' in t and 'data == -self.inf_value' in t:
+    if f is None:
+        raise AnalysisError('SafeRepresenter.represent_float has vanished')
+    dp = f.params[1]
+    cfg = CFG(f.node)
+    reprs = [n for n in cfg.nodes if n.ast is not None and any(
+        isinstance(x, ast.Call) and norm(x.func) in ('repr', 'str', 'format') and x.args and isinstance(x.args[0], ast.Name)
+        and x.args[0].id == dp for x in own_exprs(n))]
+    if not reprs:
+        raise AnalysisError('represent_float: the repr(data) branch was not found')
+
+    def scenario(kind):
+        def atom(node):
+            if not (isinstance(node, ast.Compare) and len(node.ops) == 1):
+                return None
+            l, r, op = node.left, node.comparators[0], node.ops[0]
+            if not isinstance(op, (ast.Eq, ast.NotEq)):
+                return None
+            ln, rn = norm(l), norm(r)
+            val = None
+            if ln == dp and rn == dp:
+                val = (kind != 'nan')                      # nan != nan
+            else:
+                other = rn if ln == dp else ln if rn == dp else None
+                if other is None:
+                    return None
+                if other.endswith('inf_value') and not other.startswith('-'):
+                    val = (kind == '+inf')
+                elif other.startswith('-') and other.endswith('inf_value'):
+                    val = (kind == '-inf')
+                elif other.endswith('nan_value'):
+                    val = False
+                else:
+                    return None
+            return val if isinstance(op, ast.Eq) else (not val)
+        return atom
+    leaks = []
+    for kind in ('nan', '+inf', '-inf'):
+        reach = A.cfg_reach_under(cfg, scenario(kind))
+        if any(n in reach for n in reprs):
+            leaks.append(kind)
+    if not leaks:
         rule.ok(f.loc(), 'nan / +inf / -inf are written by their own branches')
     else:
-        rule.fail('dump|represent_float|nonfinite', f.module.rel, f.node.lineno, f.qualname, 'data != data ...',
-                  'represent_float no longer diverts nan / inf / -inf before using repr(): "inf"/"nan" are not in the !!float language')
+        rule.fail('dump|represent_float|nonfinite', f.module.rel, f.node.lineno, f.qualname, 'repr(%s)' % dp,
+                  'represent_float no longer diverts %s before using repr(): "inf"/"nan" are not in the !!float language'
+                  % ' / '.join(leaks))
     return rule
 
 
@@ -557,20 +598,51 @@ def r_resolve_index(ctx, repo):
         else:
             rule.fail('%s|resolve' % g.qualname, g.module.rel, g.node.lineno, g.qualname, 'self.resolve(...)',
                       'compose_scalar_node no longer resolves exactly the untagged / "!" scalars with the event\'s implicit flags')
-    # the parser marks quoted / block scalars as (False, True)
+    # the parser marks quoted / block scalars as (False, True): decided per scenario on the CFG of parse_node
+    from .cfg import CFG as _CFG
     p = repo.func('parser.Parser.parse_node')
-    plain = M.find(p.node, "if __tok.plain and __tag is None or __tag == '!':\n    __imp = (True, False)")
-    good = False
-    for n, e in plain:
-        rest = n.orelse
-        # the remaining cases: untagged non-plain -> (False, True); tagged -> (False, False)
-        e2 = {k: v for k, v in e.items() if k in ('__tag', '__imp')}
-        if M.has(p.node, 'if __tag is None:\n    __imp = (False, True)', dict(e2)) and \
-                M.has(p.node, '__imp = (False, False)', dict(e2)):
-            good = True
+    tagvars = {e['_N_t'].id for n, e in M.find(p.node, "_N_t == '!'")} | {e['_N_t'].id for n, e in M.find(p.node, "_N_t != '!'")}
+    if len(tagvars) != 1:
+        raise AnalysisError("parse_node: the test of the non-specific tag '!' was not found")
+    tv = tagvars.pop()
+    pcfg = _CFG(p.node)
+    flag_nodes = [n for n in pcfg.nodes if n.kind == 'stmt' and isinstance(n.ast, ast.Assign) and isinstance(n.ast.value, ast.Tuple)
+                  and len(n.ast.value.elts) == 2 and all(isinstance(x, ast.Constant) and isinstance(x.value, bool) for x in n.ast.value.elts)]
+    if len(flag_nodes) < 2:
+        raise AnalysisError('parse_node: implicit flag pairs not found')
+    scalar_edges = [n for n in pcfg.nodes if n.kind == 'test' and isinstance(n.ast, ast.Call) and norm(n.ast.func).endswith('check_token')
+                    and any(norm(a) == 'ScalarToken' for a in n.ast.args)]
+    want = {(True, None): (True, False), (False, None): (False, True), (True, '!'): (True, False), (False, '!'): (True, False),
+            (True, 'x'): (False, False), (False, 'x'): (False, False)}
+    good = True
+    detail = ''
+    for (plain, tag), expect in want.items():
+        def atom(node, plain=plain, tag=tag):
+            if isinstance(node, ast.Attribute) and node.attr == 'plain':
+                return plain
+            if isinstance(node, ast.Compare) and len(node.ops) == 1 and isinstance(node.left, ast.Name) and node.left.id == tv:
+                c = node.comparators[0]
+                if isinstance(c, ast.Constant):
+                    eq = (tag == c.value) if c.value is not None else (tag is None)
+                    if isinstance(node.ops[0], (ast.Eq, ast.Is)):
+                        return eq
+                    if isinstance(node.ops[0], (ast.NotEq, ast.IsNot)):
+                        return not eq
+            if isinstance(node, ast.Call) and norm(node.func).endswith('check_token'):
+                # scenario: the node is a scalar
+                names = [norm(a) for a in node.args]
+                return ('ScalarToken' in names) if names else None
+            return None
+        starts = [m for t in scalar_edges for (m, lab) in pcfg.succ[t] if lab is True]
+        reach = A.cfg_reach_under(pcfg, atom, starts=starts)
+        got = {tuple(x.value for x in n.ast.value.elts) for n in flag_nodes if n in reach}
+        if got != {expect}:
+            good = False
+            detail = 'plain=%s tag=%r -> %s (expected %s)' % (plain, tag, sorted(got), expect)
     if good:
-        rule.ok(p.loc(), 'plain scalars get (True, False), other untagged scalars (False, True)')
+        rule.ok(p.loc(), 'plain scalars get (True, False), other untagged scalars (False, True), tagged ones (False, False)')
     else:
         rule.fail('%s|implicit' % p.qualname, p.module.rel, p.node.lineno, p.qualname, 'implicit = ...',
-                  'parse_node no longer gives quoted / block scalars the flags (False, True): they would be resolved like plain ones')
+                  'parse_node no longer gives quoted / block scalars the flags (False, True) - %s: they would be resolved like '
+                  'plain ones' % detail)
     return rule
